@@ -176,6 +176,10 @@ def run(ctx):
             if rel == "ideal":
                 if devs:
                     for d in devs:
+                        # the receiver's deviations on LIVE frames (the holder's own tables) are G01's findings; G04 reports
+                        # them where QUEUED_STATE is involved (receiver binding)
+                        if world == "holder" and d in Q.RECV_BUILT:
+                            continue
                         seen_dev.setdefault(d, (world, a, art))
                     continue
                 what = "real code departs from the ideal SleepQueue.tla at %s (%s binding) and the as-built relation does not explain it: %s" % (
